@@ -39,6 +39,7 @@ SORTS = {
     "SUBST": "raw<ipr::Substitution>({x})", "TOK": "raw<ipr::Token>({x})", "ATTR": "raw<ipr::Attribute>({x})",
     "ATTRS": "raw<ipr::Sequence<ipr::Attribute>>({x})", "SPEC": "raw<ipr::cxx_form::Species_declarator>({x})",
     "EI": "raw<ipr::cxx_form::Elemental_initializer>({x})", "NAMED": "raw<ipr::Capture_specification::Named>({x})",
+    "LNK": "w.linkage({x})", "FN": "w.as<ipr::Function>({x})", "FA": "w.as<ipr::Forall>({x})",
     "TV": "static_cast<ipr::TokenValue>({x})", "TC": "static_cast<ipr::TokenCategory>({x})",
 }
 
@@ -58,7 +59,7 @@ POOL = [
     ("ctor1", "CTOR", 'w.reg(*lx.make_construction(lx.int_type(), w.as<ipr::Enclosure>(enc1)))', {"ty": 12}),
     ("ctor2", "CTOR", 'w.reg(*lx.make_construction(lx.char_type(), w.as<ipr::Enclosure>(enc2)))', {"ty": 3}),
     ("gr", "R", 'w.reg(*w.unit.global_region())', {}),
-    ("sub", "R", 'w.reg(*w.unit.global_region()->make_subregion())', {}),
+    ("sub", "R", 'w.reg(*(pool_sub = w.unit.global_region()->make_subregion()))', {}),
     ("v1", "D V", 'w.reg(*w.unit.global_scope()->make_var(w.as<ipr::Name>(idA), lx.int_type()))', {"ty": 12, "nm": "idA"}),
     ("v2", "D V", 'w.reg(*w.unit.global_scope()->make_var(w.as<ipr::Name>(idB), lx.char_type()))', {"ty": 3, "nm": "idB"}),
     ("sc1", "SC", 'w.reg(w.as<ipr::Region>(gr).bindings())', {}),
@@ -85,11 +86,15 @@ POOL = [
     ("ei1", "EI", 'reg_raw(static_cast<const ipr::cxx_form::Elemental_initializer*>(forms().make_braced_provision()))', {}),
     ("ei2", "EI", 'reg_raw(static_cast<const ipr::cxx_form::Elemental_initializer*>(forms().make_designated_provision()))', {}),
     ("nc1", "NAMED", 'reg_raw(static_cast<const ipr::Capture_specification::Named*>(&caps.enclosing_local_capture(w.as<ipr::Decl>(v1), ipr::Binding_mode::Copy)))', {}),
+    ("fn1", "FN", 'w.reg(lx.get_function(lx.get_product(impl::Warehouse<ipr::Type>{}), lx.int_type()))', {"ty": 22}),
+    ("fn2", "FN", 'w.reg(lx.get_function(lx.get_product(impl::Warehouse<ipr::Type>{}), lx.char_type()))', {"ty": 22}),
+    ("fa1", "FA", 'w.reg(lx.get_forall(lx.get_product(impl::Warehouse<ipr::Type>{}), lx.int_type()))', {"ty": 22}),
+    ("fa2", "FA", 'w.reg(lx.get_forall(lx.get_product(impl::Warehouse<ipr::Type>{}), lx.char_type()))', {"ty": 22}),
     ("nc2", "NAMED", 'reg_raw(static_cast<const ipr::Capture_specification::Named*>(&caps.binding_capture(w.as<ipr::Identifier>(idB), w.as<ipr::Expr>(e2), ipr::Binding_mode::Reference)))', {}),
 ]
 POOL_ID = {name: NCONST + 1 + k for k, (name, _, _, _) in enumerate(POOL)}
 # candidates per sort: [first, second]; constants for types and small integers for enumerations
-CAND = {"T": [12, 3], "OT": [12, 3, 0], "Q": [1, 6], "DELIM": [0, 1, 2, 3, 4], "CAT": [58, 75], "PH": [8, 64, 4095],
+CAND = {"LNK": [34, 35], "T": [12, 3], "OT": [12, 3, 0], "Q": [1, 6], "DELIM": [0, 1, 2, 3, 4], "CAT": [58, 75], "PH": [8, 64, 4095],
         "MODE": [0, 1, 2], "BM": [0, 1, 2], "RF": [0, 1], "LVL": [0, 3], "EK": [0, 1], "TV": [5, 9], "TC": [1, 2]}
 for name, sorts, _, _ in POOL:
     for s in sorts.split():
@@ -226,6 +231,32 @@ F("make_closure", "ipr::Closure", "Closure", "R", "lx.make_closure($1)", "member
 F("make_enum", "ipr::Enum", "Enum", "R EK", "lx.make_enum($1, $2)", "kind=2 base=?underlying members=[] name=@id", "F 25",
   "underlying:T:set:$n->underlying = &$v|id:N:set:$n->id = &$v")
 
+# ---- declarations (entered into the scope of a sub-region; master/decl-set/lookup are C07's) -------------------------------------
+DECL_LINKS = "lexreg:R:set:$n->lexreg = &$v|home:R:set:$n->decl_data.master_data->home = &$v|link:LNK:set:$n->decl_data.master_data->langlinkage = &$v"
+HOME_LINKS = "home:R:set:$n->decl_data.master_data->home = &$v|link:LNK:set:$n->decl_data.master_data->langlinkage = &$v"
+F("decl_var", "ipr::Var", "Var", "N T", "pool_sub->declare_var($1, $2)",
+  "name=1 initializer=?init lexical_region=@lexreg home_region=@home linkage=@link specifiers=#0 definition=0", "G 2",
+  "init:E:set:$n->init = &$v|" + DECL_LINKS)
+F("decl_field", "ipr::Field", "Field", "N T", "pool_sub->declare_field($1, $2)",
+  "name=1 initializer=?init lexical_region=@home home_region=@home linkage=@link specifiers=#0", "G 2", "init:E:set:$n->init = &$v|" + HOME_LINKS)
+F("decl_bitfield", "ipr::Bitfield", "Bitfield", "N T", "pool_sub->declare_bitfield($1, $2)",
+  "name=1 initializer=?init precision=@length lexical_region=@home home_region=@home linkage=@link specifiers=#0", "G 2",
+  "init:E:set:$n->init = &$v|length:E:set:$n->length = &$v|" + HOME_LINKS)
+F("decl_typedecl", "ipr::Typedecl", "Typedecl", "N T", "pool_sub->declare_type($1, $2)",
+  "name=1 initializer=?init lexical_region=@lexreg home_region=@home linkage=@link specifiers=#0 definition=0", "G 2",
+  "init:T:set:$n->init = &$v|" + DECL_LINKS)
+F("decl_alias", "ipr::Alias", "Alias", "N E", "pool_sub->scope.make_alias($1, $2)",
+  "name=1 initializer=2 lexical_region=@home home_region=@home linkage=@link specifiers=#0", "B 2", HOME_LINKS)
+F("decl_fundecl", "ipr::Fundecl", "Fundecl", "N FN", "pool_sub->declare_fun($1, $2)",
+  "name=1 parameters=! mapping=0 initializer=0 lexical_region=@lexreg home_region=@home linkage=@link specifiers=#0 definition=0", "G 2",
+  DECL_LINKS)
+F("decl_primary_template", "ipr::Template", "Template", "N FA", "pool_sub->declare_primary_template($1, $2)",
+  "name=1 mapping=! primary_template=self specializations=[] lexical_region=@lexreg home_region=@home linkage=@link specifiers=#0 definition=0",
+  "G 2", DECL_LINKS)
+F("decl_secondary_template", "ipr::Template", "Template", "N FA", "pool_sub->declare_secondary_template($1, $2)",
+  "name=1 mapping=! primary_template=! specializations=[] lexical_region=@lexreg home_region=@home linkage=@link specifiers=#0 definition=0",
+  "G 2", DECL_LINKS)
+
 # ---- declarator forms, attributes, captures, tokens (not nodes: iface given, category "-") ---------------------------------------
 F("make_monadic_constraint", "ipr::cxx_form::Constraint::Monadic", "-", "I", "forms().make_monadic_constraint($1)", "scope=0 concept_name=1", "-")
 F("make_monadic_constraint_s", "ipr::cxx_form::Constraint::Monadic", "-", "E I", "forms().make_monadic_constraint($1, $2)", "scope=1 concept_name=2", "-")
@@ -300,6 +331,10 @@ def parse_src(src):
         return '[k |-> "optional", v |-> 0, l |-> "%s"]' % src[1:]
     if src.startswith("*"):
         return '[k |-> "pushed", v |-> 0, l |-> "%s"]' % src[1:]
+    if src == "!":
+        return '[k |-> "refused", v |-> 0, l |-> ""]'
+    if src == "self":
+        return '[k |-> "self", v |-> 0, l |-> ""]'
     if src == "[]":
         return '[k |-> "empty", v |-> 0, l |-> ""]'
     if src == "0":
